@@ -319,6 +319,16 @@ func (v *DataModelView) DrawEnum(name string, entity *sysl.Type_Enum) {
 
 // getNames returns the names and details needed to represent a type in a diagram.
 func getNames(t *sysl.Type) (appName string, path []string, label string, isPrimitiveList bool) {
+	// A collection nested in a collection (e.g. a list field whose element is a sequence)
+	// is named after its innermost element; it has no type reference of its own.
+	switch {
+	case t.GetSet() != nil:
+		return getNames(t.GetSet())
+	case t.GetSequence() != nil:
+		return getNames(t.GetSequence())
+	case t.GetList() != nil:
+		return getNames(t.GetList().GetType())
+	}
 	if t.GetPrimitive() == sysl.Type_NO_Primitive {
 		contextAppName := syslutil.JoinAppName(t.GetTypeRef().GetContext().GetAppname())
 		ref := t.GetTypeRef().GetRef()
